@@ -137,10 +137,17 @@ func (P) Gen(rng *sim.Rng, tier string) *harness.Case {
 				}
 			case 2:
 				if entries > 0 {
-					ops = append(ops, harness.Op{K: "exit", E: rng.Intn(entries), F: rng.Chance(0.3)})
+					x := harness.Op{K: "exit", E: rng.Intn(entries), F: rng.Chance(0.3)}
+					if ticks && rng.Chance(0.15) {
+						x.M = 1 // an exit handler registered by the caller traces an error of its own
+					}
+					ops = append(ops, x)
 				}
 			default:
-				if ticks {
+				if ticks && rng.Chance(0.12) {
+					// clock fault: the wall clock is set back a little (an NTP correction) while entries are in flight
+					ops = append(ops, harness.Op{K: "back", N: uint64(rng.Range(1, 400))})
+				} else if ticks {
 					ops = append(ops, harness.Op{K: "tick", N: []uint64{0, 1, 7, 100, 499, 500, 501, 1000, 3000, 12000}[rng.Intn(10)]})
 				}
 			}
@@ -512,6 +519,17 @@ func execSeq(c *harness.Case, w *world, env *harness.Env) {
 			for _, l := range w.logs {
 				l.Prune(now, 30000)
 			}
+		case "back":
+			// (not across a bucket boundary: a recorder that is behind the bucket of its slot is refused, which is
+			// the statistic's business and C08 / C09's subject; here the subject is what an entry reports)
+			d := op.N
+			if m := now % 500; d > m {
+				d = m
+			}
+			if d > 0 {
+				clk.SetNs(clk.NowNs() - d*1e6)
+				o.Fault("clock_stepped_back")
+			}
 		case "entry":
 			if op.R < 0 || op.R >= w.cfg.NRes {
 				w.ents = append(w.ents, nil)
@@ -616,6 +634,16 @@ func execSeq(c *harness.Case, w *world, env *harness.Env) {
 			if first && err != nil {
 				m.lastErr = err.Error()
 			}
+			if first && op.M == 1 {
+				w.errSeq++
+				hx := errOf(m.serial, w.errSeq)
+				m.e.WhenExit(func(e *base.SentinelEntry, _ *base.EntryContext) error {
+					sentinel.TraceError(e, hx)
+					return nil
+				})
+				m.lastErr = hx.Error() // (runs after the error given to Exit was recorded)
+				o.Probe("exit_handler_traces_an_error")
+			}
 			harness.Call(o, "C01.panic", step, func() {
 				if err != nil {
 					m.e.Exit(base.WithError(err))
@@ -642,6 +670,9 @@ func execSeq(c *harness.Case, w *world, env *harness.Env) {
 				}
 				cb := newCbs[0]
 				rt := now - m.start
+				if now < m.start {
+					rt = 0 // the clock was set back meanwhile: a duration is not negative
+				}
 				if cb.res != harness.ResName(m.res) || cb.batch != m.batch || cb.rt != rt || (cb.err != m.lastErr && !internalPanic) {
 					o.Fail("C01.completion-attribution", step, "completion of entry #%d reported res=%s batch=%d rt=%d err=%q; expected res-%d batch=%d rt=%d err=%q", m.serial, cb.res, cb.batch, cb.rt, cb.err, m.res, m.batch, rt, m.lastErr)
 					return
